@@ -173,7 +173,14 @@ func (s *streamHTTP) readMsg(c Codec, b []byte) (int, []byte, error) {
 		b = append(b, s.rbuf...)
 		b, n, err := codec.ReadNext(b, s.r, s.opts.maxReceiveMessageSize)
 		if err == io.EOF {
-			s.rEOF, err = true, nil
+			s.rEOF = true
+			if _, isBody := c.(codecHTTPBody); n == 0 && (count > 0 || !isBody) {
+				// End of stream without a message. Only an empty
+				// HttpBody upload is delivered as one empty chunk.
+				s.rbuf = s.rbuf[:0]
+				return count, nil, io.EOF
+			}
+			err = nil
 		}
 		s.rbuf = append(s.rbuf[:0], b[n:]...)
 		return count, b[:n], err
